@@ -367,7 +367,7 @@ func (c *Client) Mail(from string) error {
 	}
 	c.mutex.RUnlock()
 
-	_, _, err := c.cmd(250, cmdStr, from)
+	_, _, err := c.cmd(250, cmdStr, quotePath(from))
 	return err
 }
 
@@ -384,10 +384,10 @@ func (c *Client) Rcpt(to string) error {
 	c.mutex.RUnlock()
 
 	if ok && c.dsnrntype != "" {
-		_, _, err := c.cmd(25, "RCPT TO:<%s> NOTIFY=%s", to, c.dsnrntype)
+		_, _, err := c.cmd(25, "RCPT TO:<%s> NOTIFY=%s", quotePath(to), c.dsnrntype)
 		return err
 	}
-	_, _, err := c.cmd(25, "RCPT TO:<%s>", to)
+	_, _, err := c.cmd(25, "RCPT TO:<%s>", quotePath(to))
 	return err
 }
 
@@ -660,6 +660,32 @@ func (c *Client) debugLog(d log.Direction, f string, a ...interface{}) {
 	if c.debug {
 		c.logger.Debugf(log.Log{Direction: d, Format: f, Messages: a})
 	}
+}
+
+// quotePath returns addr in the form required inside a reverse-path or forward-path: if the local part
+// is not a dot-string (RFC 5321, section 4.1.2) it is transmitted as a quoted-string, so that blanks,
+// angle brackets and the like cannot end the path or add ESMTP parameters.
+func quotePath(addr string) string {
+	at := strings.LastIndex(addr, "@")
+	if at <= 0 {
+		return addr
+	}
+	local, domain := addr[:at], addr[at:]
+	needsQuote := local[0] == '.' || local[len(local)-1] == '.' || strings.Contains(local, "..")
+	for i := 0; i < len(local) && !needsQuote; i++ {
+		char := local[i]
+		switch {
+		case char >= 'a' && char <= 'z', char >= 'A' && char <= 'Z', char >= '0' && char <= '9', char >= 0x80:
+		case strings.IndexByte("!#$%&'*+-/=?^_`{|}~.", char) >= 0:
+		default:
+			needsQuote = true
+		}
+	}
+	if !needsQuote {
+		return addr
+	}
+	replacer := strings.NewReplacer(`\`, `\\`, `"`, `\"`)
+	return `"` + replacer.Replace(local) + `"` + domain
 }
 
 // validateLine checks to see if a line has CR or LF as per RFC 5321.
